@@ -11,6 +11,7 @@ Not decided: state-dependent internal invariants (probe-loop termination, table 
 """
 from .. import ir, absint
 from ..main import Result
+from . import common as C
 
 
 def is_config_label(prog, lbl):
@@ -124,4 +125,5 @@ def run(prog, ctx):
                        "from constants and constructor-validated configuration (C17.R) or from the length of an API argument (C17.A)" % (len(scope), len(exported)))
     res.not_decided = ("state-dependent invariants (table fullness, probe termination, counters that only grow with the stream), arithmetic on "
                        "unvalidated direct arguments (documented preconditions; listed in precondition_census)")
+    C.interpolation_window_rule(res, prog, "C17.C")
     return res
